@@ -679,6 +679,8 @@ func (area) Run(c *core.Ctx) error {
 				err = witnessNameLimits(c, db)
 			case 27:
 				err = witnessSeqCacheEvict(c, db)
+			case 28:
+				err = witnessBucketRelease(c, db)
 			default:
 				if rng.Intn(12) == 0 {
 					err = bufReuseRegion(c, rng, db, false)
